@@ -32,7 +32,7 @@ CLAIMED = {
             'CFG path enumeration with typestate (pending key) and balance events, interprocedural helper summaries; linear window analysis', '§5 C03'),
     'C04': ('other',
             'Value-flow of arithmetic stores by clang cast kinds and types in every instantiated value loader (no narrowing / sign-changing / '
-            'int-float cast reaches a load target), handler discipline of ConvertByPolicy and of the three other policy mappers, success-flag '
+            'int-float cast reaches a load target), handler discipline of ConvertByPolicy and of the three other policy mappers (the load target is only assigned from a finished conversion inside their try blocks), success-flag '
             'discipline and exception-type discipline of the checked conversions; interval analysis of every integer-to-integer conversion; MsgPack integer/float '
             'readers hand the payload on with the width and signedness of the wire format; JSON numbers reach the checked conversion through the getter valid for their class.',
             'cast-kind classification of stores (type-checked AST per instantiation) + handler/exception discipline rules', '§5 C04'),
@@ -67,7 +67,7 @@ CLAIMED = {
     'C10': ('other',
             'Sibling cross-check of the duplicated memory/stream implementations: equal decision tables of the two MsgPack readers for all '
             'methods x 256 first bytes; writer tables; CSV twins compared cell by cell (row states, column selection, scanner transitions), cell reads do not write the row, '
-            'chunked strings are assembled in order, stream-positioning discipline (whole error state cleared before a backward seek), length widths of both reader copies, separator forwarding, no look-ahead of the CSV stream scanner into text not decoded yet, equal parser options of the memory and stream constructors of the JSON and XML adapters. Decides agreement of the copies, not behaviour at every chunk alignment.',
+            'chunked strings are assembled in order, stream-positioning discipline (whole error state cleared before a backward seek), length widths of both reader copies, separator forwarding, no look-ahead of the CSV stream scanner into text not decoded yet, equal parser options of the memory and stream constructors of the JSON and XML adapters and equal validation of string bytes (one recorded known finding: JSON validates only stream input). Decides agreement of the copies, not behaviour at every chunk alignment.',
             'twin comparison of decision tables / statement skeletons of sibling implementations', '§5 C10'),
     'C11': ('other',
             'Abstract interpretation of the cross-width transcoders over the scalar-value / code-unit classes of the Unicode standard: for '
